@@ -106,6 +106,7 @@ pub fn configs(prop: &str, thorough: bool) -> Vec<(Cfg, Option<usize>)> {
                 ];
                 c.editors = vec![4];
                 c.max_edits = 2;
+                c.hooked = true;
                 c.edits_after_proposal = true;
                 c.exec_iff = true;
                 out.push((c, None));
@@ -234,6 +235,7 @@ pub fn configs(prop: &str, thorough: bool) -> Vec<(Cfg, Option<usize>)> {
                 c.editors = vec![4];
                 c.max_edits = 2;
                 c.edits_after_proposal = true;
+                c.hooked = true;
                 out.push((c, None));
             }
             // (a'') a configured deposit must not change what Execute relays
@@ -368,6 +370,8 @@ pub fn configs(prop: &str, thorough: bool) -> Vec<(Cfg, Option<usize>)> {
                     c.edits = edits.clone();
                     c.editors = vec![4, 0];
                     c.max_edits = ne;
+                    // the usual deployment: the multisig listens to its group
+                    c.hooked = n.starts_with("A1,B5,C1");
                     out.push((c, None));
                 }
             }
